@@ -17,6 +17,21 @@ P = {
  'C07': dict(tech='static analysis: PathEval protocol table for processors + ordering/dominance facts in add_processor + structural verification of the upper-bound bisection + who-may-write _sorted_processors',
    text='Static. Decides: lifecycle protocol of the processor table (as C02), world set before on_add, Optional priority tested by identity and stored exactly when given, priority store and replacement before the sorted insertion keyed on priority, insort resolves to insort_right -> bisect_right whose loops are the strict upper-bound search without early exit, every writer of _sorted_processors is the insort / an identity filter paired with the _processors delete / the empty init, process() is one loop with one processor.process(dt) per element, processors returns the list in order.',
    ref='DESIGN.md section 3 C07'),
+ 'C03': dict(tech='static analysis: PathEval over listener loops (one delivery per live listener with (handler,*args,**kwargs)), coupled-table construction/removal check, container-kind and borrowed-mapping rules',
+   text='Static. Decides for desper/events.py: every loop over listeners makes exactly one call per live listener of its method with (handler, *args, **kwargs); the loop does not iterate the live set; add_handler files the same element/pair in _events and _handlers for every mapped event, _remove_weak_handler removes exactly those and then the ref, remove_handler/is_handler use the same key; listener containers are sets filled with add; _events[name] is only indexed after the membership test; event_handler never mutates the inherited mapping and assigns a fresh merge with the inherited mapping leftmost.',
+   ref='DESIGN.md section 3 C03'),
+ 'C04': dict(tech='static analysis: PathEval typestate of dispatch() and of the enabling setter with one exception edge per delivery (remove-front-before-deliver, fresh flag test, no wipe/swap-out, drain always reached)',
+   text='Static. Decides: dispatch() delivers only on paths that found the flag true, queues exactly (name,args,kwargs) at the back when disabled, ignores unknown events; in the enabling setter, on every path incl. every exception edge out of a delivery, each delivery is made from the element just removed from the front of the queue, nothing else is removed or wiped, each delivery follows a flag test that is fresh w.r.t. the previous delivery (nested disable stops the release: termination and order), enabling never returns before the release loop; every direct callback World makes is under a fresh enabled test.',
+   ref='DESIGN.md section 3 C04'),
+ 'C05': dict(tech='static analysis: PathEval with exception edges over the deletion applier, check-or-maintain rule on every row-delete site, ordering facts in process()',
+   text='Static. Decides: deferred delete_entity only marks; process() applies deletions before the processor loop on every path; component queries ignore the pending set; every row delete of _entities is followed on all paths by the discard of that id from the pending set (or the applier guards its row accesses); the applier draws ids from the live set right before teardown (snapshots must be guarded), never iterates the pending set live, and at every exception edge of the teardown the id has already left the pending set; clear() wipes the marks only after deleting every row.',
+   ref='DESIGN.md section 3 C05'),
+ 'C06': dict(tech='static analysis: PathEval over the six subclass walks with a work-list model, per-iteration typestate (exact-first, membership match, closure, visited-once, single detach)',
+   text='Static, independent of any class hierarchy. Decides for each of the six type queries: it reaches a work-list walk seeded with the queried type; the first element tested is the queried type; the match test is a membership test of the popped type; every iteration taking the back edge pushed the subclasses of the popped element (or skipped a visited one); the yielding walk tests and records the popped type in a visited set before its per-visit effect; no loop re-entry after a detach.',
+   ref='DESIGN.md section 3 C06'),
+ 'C10': dict(tech='static analysis: taint (strong-reference escape) from handler parameters into dispatcher state, weakref-callback resolution, nullness of weak-reference dereference on every path to a delivery',
+   text='Static. Decides: no expression holding a strong reference to a handler (the handler, a bound method, a closure over it) is stored into dispatcher state; every weak reference is created with a callback resolving to a method that removes it from both tables; in every listener loop the dereferenced handler passes an `is None` test before the delivery call on every path, and the snapshot iterated holds weak references rather than dereferenced handlers.',
+   ref='DESIGN.md section 3 C10'),
 }
 NA_REASON = 'check under construction in this round (static rules designed in DESIGN.md section 3); not claimed until it runs'
 def main():
